@@ -331,7 +331,8 @@ func TestC04(t *testing.T) {
 		})
 		// 5. exponent extremes
 		if e.enumStage("exponents", "mantissas {1, 9, 1.5, 123456789012345678, 0.00001, 2.2250738585072014, 4.9, 1.7976931348623157} x exponents {0, +-1, +-22, +-23, +-307..+-309, +-323..+-325, +-342..+-349, +-400, +-9999..+-10001, 19-digit} x 3 spellings", true) {
-			mants := []string{"1", "9", "1.5", "123456789012345678", "0.00001", "2.2250738585072014", "4.9", "1.7976931348623157", "17976931348623157", "0.0000000000000000000000000000001", "1" + strings.Repeat("0", 300)}
+			mants := []string{"0." + strings.Repeat("0", 18), "0." + strings.Repeat("0", 19), "0." + strings.Repeat("0", 20), "0." + strings.Repeat("0", 40), "0." + strings.Repeat("0", 400), "0.0", "0",
+				"1", "9", "1.5", "123456789012345678", "0.00001", "2.2250738585072014", "4.9", "1.7976931348623157", "17976931348623157", "0.0000000000000000000000000000001", "1" + strings.Repeat("0", 300)}
 			exps := []int64{0, 1, 15, 16, 22, 23, 37, 38, 291, 292, 307, 308, 309, 310, 323, 324, 325, 342, 343, 347, 348, 349, 400, 616, 9999, 10000, 10001, 99999, 1 << 31, 1 << 32, 9223372036854775807}
 			idx := 0
 		exps:
